@@ -30,6 +30,7 @@ CONSTANTS
     RearmGuard,     \* TRUE: after re-arming the deadline the uplink re-checks that shutdown has not begun
     Rejected,       \* targets the router rejects: a session whose first packet names one fails to initialise
     Unresolvable,   \* domain names whose lookup fails (NXDOMAIN): the packet is dropped, the cache must not change
+    GarbageOn,      \* TRUE: clients also send datagrams that do not parse (Garbage), at any time, also as their very first
     Batch,          \* TRUE: the downlink reads every reply that has arrived in one recvmmsg batch (sendmmsg path)
     Keyed           \* "addr": sessions keyed by client address (NAT relays); "sid": keyed by client session id, following
                     \* the client's latest address (Shadowsocks 2022 session relays)
@@ -108,9 +109,10 @@ RecvPkt(s, t) ==
     /\ seen' = [seen EXCEPT ![s] = cli[s]] /\ cli' = cli
     /\ UNCHANGED <<cur, rip, dest, pk, sent, back, spc, rloop, nreply, ntimer>>
 
-\* a datagram that does not parse / authenticate: nothing changes
+\* a datagram that does not parse / authenticate: nothing changes - in particular no table entry is made for its
+\* source address, and a valid datagram that follows it is treated exactly as if the garbage had never arrived
 Garbage(s) ==
-    /\ rloop = "run"
+    /\ GarbageOn /\ rloop = "run"
     /\ UNCHANGED sv
     /\ act' = [n |-> "Garbage", s |-> s]
 
@@ -301,7 +303,7 @@ SessionStep(s) ==
 
 Next ==
     \/ \E s \in Sess, t \in Targets : RecvPkt(s, t)
-    \/ \E s \in Sess : SessionStep(s) \/ (\E k \in {"ok", "big"} : TargetReply(s, k)) \/ TimerFire(s) \/ Move(s) \/ Forged(s)
+    \/ \E s \in Sess : SessionStep(s) \/ (\E k \in {"ok", "big"} : TargetReply(s, k)) \/ TimerFire(s) \/ Move(s) \/ Forged(s) \/ Garbage(s)
     \/ StopBegin \/ RecvLoopEnd \/ StopSwapAll \/ StopEnd
 
 \* goroutine steps are weakly fair; clients, targets and timers are not obliged to act
